@@ -42,7 +42,7 @@ ASSUMPTIONS = [
     "of its nonzero entries are detectable at the first point (same rule as C14)",
     "dynamic coloring perturbs inputs with numpy's global RNG: seeded from the case",
 ]
-MIN_CLASS_FRACTION = {'efc': 0.15, 'ifc': 0.1, 'jex': 0.08, 'jim': 0.05, 'method_jax': 0.1, 'coloring_requested': 0.2}
+MIN_CLASS_FRACTION = {'efc': 0.15, 'ifc': 0.1, 'jex': 0.08, 'jim': 0.05, 'method_jax': 0.1, 'coloring_requested': 0.1}
 UNIT_TIMEOUT = {'quick': 2400, 'thorough': 14400}
 
 NAMES = ['a', 'b', 'c', 'd', 'g', 'h', 'p', 'q', 'u', 'v', 'w', 'x', 'y', 'z', 'x1', 'y_2', 'Ab']
